@@ -236,7 +236,7 @@ def run(ctx):
     ctx.add("exhaustive_multisets_enumerated", sum(1 for s in range(1, 8) for ms in itertools.combinations_with_replacement(range(6), s)
                                                    if True) if ctx.shard == 0 else 0)
     # ---- random large samples with heavy ties
-    nrand = (100000 if ctx.tier == "thorough" else 1200) // ctx.nshards
+    nrand = (800000 if ctx.tier == "thorough" else 1200) // ctx.nshards
     for j in range(nrand):
         r = ctx.rng("c09rand", j)
         n = int(10 ** r.uniform(2, 5 if j % 50 == 0 else 3.3))
